@@ -882,6 +882,13 @@ class Trial:
                 completed = True        # killed or failed after the commit point
             if completed and step in self.acked and post != pre:
                 self._check_repeated_completion(step, argv, after, detail)
+                # A step that is allowed to run again may legitimately discard what was built on its
+                # previous result -- completely.  Such dependants are simply no longer "completed".
+                for dep in [d for d in list(self.acked) if step in PREREQ[d]]:
+                    if all(after.counts.get(t, 0) == 0 for t in dump_mod.STEP_TABLES[dep]):
+                        del self.acked[dep]
+                        self.ack_count[dep] = 0
+                        self.stats["dependants_discarded_by_a_repeated_step"] += 1
             if completed:
                 self._check_marker(step, argv, self.view, detail, "subject")
                 self.acked[step] = argv
